@@ -1,2 +1,113 @@
-import Pakhi.Model.Interp
+/-
+  C14 — imported modules are namespaced: no name capture in either direction.
+
+  Token-level theorems about the module loader: every identifier of a module that is not a built-in
+  function or the built-in constant `_প্ল্যাটফর্ম` receives exactly the prefix `alias/` (nested imports
+  compose: `A/B/n`), everything else about the token stream is unchanged; prefixed names of different
+  aliases, and of a module and its importer, never coincide when user identifiers contain no `/`;
+  `_ডাইরেক্টরি` is replaced, before renaming, by the directory of the file it is written in; the
+  module's tokens are spliced once, directly after the import statement.  The behavioural clause
+  (moving definitions into a module does not change behaviour) is decided by the C14 check against
+  the renamed-apart inlined program.
+-/
 import Pakhi.Model.Parser
+
+namespace Pakhi
+namespace C14
+
+/-- the loader renames token by token: kinds, lines, files and the number of tokens are unchanged -/
+theorem prefix_shape (toks : List Token) (name : Str) :
+    (prependName toks name).length = toks.length ∧
+    ∀ (i : Nat) (t : Token), toks[i]? = some t → ∃ t' : Token, (prependName toks name)[i]? = some t' ∧ t'.kind = t.kind ∧ t'.line = t.line ∧ t'.file = t.file := by
+  refine ⟨by simp [prependName], ?_⟩
+  intro i t ht
+  simp only [prependName, List.getElem?_map, ht, Option.map_some]
+  refine ⟨_, rfl, ?_⟩
+  split <;> simp
+
+/-- exactly the user identifiers are prefixed with `alias/` -/
+theorem prefix_all (toks : List Token) (name : Str) (i : Nat) (t : Token) (ht : toks[i]? = some t) :
+    (prependName toks name)[i]? = some
+      (if t.kind == .ident && !isBuiltin t.lexeme && t.lexeme != platformConst
+       then { t with lexeme := name ++ ('/' :: t.lexeme) } else t) := by
+  simp [prependName, List.getElem?_map, ht]
+
+/-- built-in functions and the built-in constant work unqualified inside modules -/
+theorem builtins_not_renamed (toks : List Token) (name : Str) (i : Nat) (t : Token) (ht : toks[i]? = some t)
+    (hb : isBuiltin t.lexeme = true ∨ t.lexeme = platformConst ∨ t.kind ≠ .ident) :
+    (prependName toks name)[i]? = some t := by
+  rw [prefix_all toks name i t ht]
+  rcases hb with h | h | h
+  · simp [h]
+  · simp [h]
+  · have : (t.kind == TK.ident) = false := by simpa using h
+    simp [this]
+
+/-- nested imports compose: importing `B` inside module `A` gives the names the prefix `A/B/` -/
+theorem prefix_compose (a b x : Str) : a ++ ('/' :: (b ++ ('/' :: x))) = (a ++ ('/' :: b)) ++ ('/' :: x) := by simp
+
+theorem prefix_cancel : ∀ (a x y : Str), a ++ ('/' :: x) = a ++ ('/' :: y) → x = y
+  | [], x, y, h => by simpa using h
+  | _ :: a, x, y, h => prefix_cancel a x y (by simpa using h)
+
+/-- names of modules imported under different slash-free aliases never coincide, and equal names
+    under the same alias come from equal names -/
+theorem prefix_injective : ∀ (a b x y : Str), '/' ∉ a → '/' ∉ b → a ++ ('/' :: x) = b ++ ('/' :: y) → a = b ∧ x = y
+  | [], [], x, y, _, _, h => by simpa using h
+  | [], c :: b, x, y, _, hb, h => by
+      simp at h; exact absurd h.1.symm (by intro e; apply hb; simp [e])
+  | c :: a, [], x, y, ha, _, h => by
+      simp at h; exact absurd h.1 (by intro e; apply ha; simp [e])
+  | c :: a, d :: b, x, y, ha, hb, h => by
+      simp at h
+      have := prefix_injective a b x y (by intro e; apply ha; simp [e]) (by intro e; apply hb; simp [e]) h.2
+      exact ⟨by simp [h.1, this.1], this.2⟩
+
+/-- a module's name is never captured by (and never captures) a slash-free name of the importer -/
+theorem no_capture (a x y : Str) (hy : '/' ∉ y) : a ++ ('/' :: x) ≠ y := by
+  intro h; apply hy; rw [← h]; simp
+
+/-- built-in names contain no `/`, so a prefixed name never collides with a built-in either -/
+theorem builtins_slash_free : ∀ n ∈ builtinNames, '/' ∉ n := by decide
+
+/-- `_ডাইরেক্টরি` becomes the string token holding the directory of the file it is written in;
+    every other token is unchanged -/
+theorem dirname_per_file (ctx : PCtx) (toks toks' : List Token) (loc d : Str) (hd : dirWithSlash ctx loc = .ok d)
+    (h : expandDirname ctx toks loc = .ok toks') (i : Nat) (t : Token) (ht : toks[i]? = some t) :
+    toks'[i]? = some (if t.kind == .ident && t.lexeme == dirnameConst then { t with kind := .str d, lexeme := d } else t) := by
+  unfold expandDirname at h
+  split at h
+  · simp [hd] at h; subst h; simp [List.getElem?_map, ht]
+  · rename_i hn
+    simp at h; subst h
+    have : ¬ (t.kind == .ident && t.lexeme == dirnameConst) = true := by
+      intro hc; apply hn
+      simp only [List.any_eq_true]
+      exact ⟨t, List.mem_of_getElem? ht, hc⟩
+    simp [ht, this]
+
+/-- the directory is computed from the module's own location, with a trailing `/` -/
+theorem dirname_value (ctx : PCtx) (loc d : Str) (hd : dirWithSlash ctx loc = .ok d) :
+    ∃ par, pathParent (absPath ctx loc) = some par ∧ d = (if endsWith par ['/'] then par else par ++ ['/']) := by
+  unfold dirWithSlash at hd
+  split at hd
+  · simp at hd
+  · rename_i par hp; exact ⟨par, hp, by simpa using hd.symm⟩
+
+/-- the module's tokens (without its end marker) are spliced exactly once, directly after the `;` of
+    the import statement, and the import edge is recorded -/
+theorem splice_once (ctx : PCtx) (s : PS) (name path : Str) (off : Nat) (imported : List Token) (childs : List Str)
+    (semi : Token) (tail : List Token)
+    (h1 : importPathTail (s.rest.drop 2) = .ok (path, off)) (h2 : endsWith path W.extPakhi = true)
+    (h3 : moduleTokens ctx path name = .ok imported) (h4 : allImportPaths imported = .ok childs)
+    (h5 : importsBack (relSet s.rel path (addNew ((relGet s.rel path).getD []) childs)) path = false)
+    (h6 : s.rest.drop (2 + off) = semi :: tail) :
+    ∃ s', namedModuleImport ctx s name = .ok s' ∧
+      s'.rest = semi :: (imported.filter (·.kind != .eot) ++ tail) ∧
+      s'.rel = relSet s.rel path (addNew ((relGet s.rel path).getD []) childs) := by
+  simp [namedModuleImport, h1, h2, h3, h4, h5, h6]
+
+example : isBuiltin W.fnListPush = true ∧ isBuiltin W.kwPrint = false := by decide
+
+end C14
+end Pakhi
